@@ -46,7 +46,9 @@ ReqTable ==
      [arch |-> "zen1", isa |-> "x86",     rmw |-> FALSE, opt |-> "lines-a"], \* --lines 1-3
      [arch |-> "zen1", isa |-> "x86",     rmw |-> FALSE, opt |-> "lines-b"], \* --lines 6-9 of the same file
      [arch |-> "tx2",  isa |-> "aarch64", rmw |-> FALSE, opt |-> "long-a"],  \* >= 50 lines: multi-process LCD search
-     [arch |-> "tx2",  isa |-> "aarch64", rmw |-> FALSE, opt |-> "long-b"] >>
+     [arch |-> "tx2",  isa |-> "aarch64", rmw |-> FALSE, opt |-> "long-b"],
+     [arch |-> "zen1", isa |-> "x86",     rmw |-> FALSE, opt |-> "absent"],  \* mnemonics zen1 does not list at all
+     [arch |-> "zen4", isa |-> "x86",     rmw |-> FALSE, opt |-> "absent"] >> \* the same kernel on a model that lists them
 NReq  == Len(ReqTable)
 Req   == 1..NReq
 Archs == { ReqTable[r].arch : r \in Req }
